@@ -334,5 +334,91 @@ def rule_e7(repo):
     return res
 
 
+def _const_test(e, subject, value):
+    """truth value of a test that mentions only `subject` (by source text) and numbers, for subject = value; None if it
+    mentions anything else.  Python's arithmetic on the sample value is the semantics of the test (that is the point:
+    -2 % 2 == 0)."""
+    import fractions
+    import operator
+
+    def num(x):
+        if src(x, 200) == subject:
+            return value
+        if isinstance(x, ast.Constant) and isinstance(x.value, (int, float)) and not isinstance(x.value, bool):
+            return x.value
+        if isinstance(x, ast.UnaryOp) and isinstance(x.op, ast.USub):
+            v = num(x.operand)
+            return None if v is None else -v
+        if isinstance(x, ast.BinOp) and type(x.op) in (ast.Add, ast.Sub, ast.Mult, ast.Mod, ast.FloorDiv):
+            a, b = num(x.left), num(x.right)
+            if a is None or b is None or (isinstance(x.op, (ast.Mod, ast.FloorDiv)) and b == 0):
+                return None
+            return {ast.Add: operator.add, ast.Sub: operator.sub, ast.Mult: operator.mul, ast.Mod: operator.mod, ast.FloorDiv: operator.floordiv}[type(x.op)](a, b)
+        return None
+    if isinstance(e, ast.BoolOp):
+        vals = [_const_test(v, subject, value) for v in e.values]
+        if any(v is None for v in vals):
+            return None
+        return all(vals) if isinstance(e.op, ast.And) else any(vals)
+    if isinstance(e, ast.UnaryOp) and isinstance(e.op, ast.Not):
+        v = _const_test(e.operand, subject, value)
+        return None if v is None else not v
+    cp = compare_parts(e)
+    if cp:
+        a, b = num(cp[1]), num(cp[2])
+        if a is None or b is None:
+            return None
+        ops = {ast.Eq: operator.eq, ast.NotEq: operator.ne, ast.Lt: operator.lt, ast.LtE: operator.le, ast.Gt: operator.gt, ast.GtE: operator.ge}
+        return ops[cp[0]](a, b) if cp[0] in ops else None
+    return None
+
+
+def rule_e8(repo):
+    """Interval.__pow__ decides by cases on a constant exponent: 0, the even power 2, positive, negative (the reciprocal of
+    the positive power).  The cases are tests on one number; which case a given exponent takes can be read off by evaluating
+    the tests, in order, for sample exponents.  Every negative sample has to arrive at the case that takes the reciprocal:
+    a test that a negative number passes earlier (`e % 2 == 0` holds for -2) sends x^(-2) through the bounds of x^2, and the
+    resulting "interval" (1, 1/4) is contained in everything - sign conditions then hold vacuously."""
+    import fractions
+    res = RuleResult('C19.E8', 'in interval arithmetic every negative constant exponent takes the reciprocal case', floor=1)
+    f = repo.func('integral/interval.py', 'Interval.__pow__')
+    other = f.params()[1]
+    subject = 'eval_expr(%s.start)' % other
+    chain = None
+    for n in ast.walk(f.node):
+        if isinstance(n, ast.If) and _const_test(n.test, subject, 1) is not None:
+            chain = n
+            break
+    need(chain is not None, 'Interval.__pow__: case analysis on eval_expr(%s.start) not found' % other)
+
+    def branch_for(value):
+        n = chain
+        while True:
+            t = _const_test(n.test, subject, value)
+            if t is None:
+                return None
+            if t:
+                return n.body
+            if len(n.orelse) == 1 and isinstance(n.orelse[0], ast.If):
+                n = n.orelse[0]
+                continue
+            return n.orelse
+    bad, unknown = [], []
+    for v in (-1, -2, -3, -4, fractions.Fraction(-1, 2)):
+        b = branch_for(v)
+        if b is None:
+            unknown.append(v)
+            continue
+        recip = any(isinstance(c, ast.Call) and call_attr(c) == 'inverse' for st in b for c in ast.walk(st))
+        if not recip:
+            bad.append((v, b[0].lineno if b else chain.lineno))
+    need(not unknown, 'Interval.__pow__: a test of the case analysis could not be evaluated for the exponents %s' % unknown)
+    res.add('integral/interval.py :: Interval.__pow__ :: negative-exponent-takes-reciprocal', not bad,
+            'the exponents -1, -2, -3, -4, -1/2 all reach `(self ** -k).inverse()`' if not bad else
+            'the exponent %s takes the case at line %d, which does not take the reciprocal: x ^ (%s) on (1, 2) gets bounds of the positive power' % (
+                bad[0][0], bad[0][1], bad[0][0]), '%s:%d' % ('integral/interval.py', bad[0][1] if bad else chain.lineno))
+    return res
+
+
 def rules(repo):
-    return [rule_e1(repo), rule_e2(repo), rule_e3(repo), rule_e4(repo), rule_e5(repo), rule_e6(repo), rule_e7(repo)]
+    return [rule_e1(repo), rule_e2(repo), rule_e3(repo), rule_e4(repo), rule_e5(repo), rule_e6(repo), rule_e7(repo), rule_e8(repo)]
